@@ -122,9 +122,9 @@ def audit(pid):
     return rc, out, names, axioms, bad_words
 
 
-def run_stream(wfh, fam, seed, n, pid):
+def run_stream(wfh, fam, seed, n, pid, oracle_only=False, env=None, tag=""):
     """run harness family, then the model driver on the same requests; return list of cases."""
-    rundir = os.path.join(CACHE, "run", pid)
+    rundir = os.path.join(CACHE, "run", pid + tag)
     os.makedirs(rundir, exist_ok=True)
     qa = os.path.join(rundir, fam + ".qa")
     for p in (qa, os.path.join(rundir, fam + ".stats.json")):
@@ -132,7 +132,7 @@ def run_stream(wfh, fam, seed, n, pid):
             os.remove(p)
     t0 = time.time()
     # address-space limit so that absurd allocations fail (and abort) instead of being overcommitted
-    rc, out = sh(f"ulimit -v 8388608; exec {wfh} {fam} {seed} {n} {rundir}", timeout=7200)
+    rc, out = sh(f"ulimit -v 8388608; exec {wfh} {fam} {seed} {n} {rundir}", timeout=7200, env=env)
     t_impl = time.time() - t0
     reqs, impl, oracle = [], [], []
     died = None
@@ -159,6 +159,10 @@ def run_stream(wfh, fam, seed, n, pid):
             stats = json.load(open(sp))
         except Exception:
             stats = {}
+    if oracle_only:
+        # no executable Lean model answers these requests: only the property's oracle is compared
+        return {"fam": fam, "reqs": reqs, "impl": impl, "oracle": oracle, "model": None, "died": died,
+                "stats": stats, "t_impl": t_impl, "t_model": 0.0, "driver_rc": 0, "driver_err": ""}
     # model side
     t0 = time.time()
     reqfile = os.path.join(rundir, fam + ".req")
@@ -264,23 +268,60 @@ def main():
 
     # --- 3. correspondence streams -----------------------------------------------------------
     streams = []
+    oracle_only_cases = 0
+    variant_cases = 0
+    nonce_differs = 0
     total_cases = 0
     agree = 0
     distinct = set()
     samples = []
     hist = {}
     if os.path.exists(wfh) and not any(p["kind"] == "harness-build" for p in problems):
-        for fam, nq, nt in cfg.get("streams", []):
+        for entry in cfg.get("streams", []):
+            fam, nq, nt = entry[0], entry[1], entry[2]
+            sopts = entry[3] if len(entry) > 3 else {}
             n = nq if tier == "quick" else nt
-            if replay_in:
-                pass
-            s = run_stream(wfh, fam, seed, n, pid)
+            s = run_stream(wfh, fam, seed, n, pid, oracle_only=sopts.get("oracle_only", False))
             streams.append(s)
+            # cross-build / cross-thread variants: the same stream must give identical answers
+            for vi, var in enumerate(sopts.get("variants", [])):
+                vrc, vout, vbin = build_harness(tuple(var.get("features", ())))
+                if vrc != 0:
+                    problems.append({"kind": "harness-build", "key": "harness-build:" + ",".join(var.get("features", ())), "detail": vout[-1500:]})
+                    continue
+                vs = run_stream(vbin, fam, seed, n, pid, oracle_only=True, env=var.get("env"), tag=f"-v{vi}")
+                variant_cases += len(vs["reqs"])
+                if vs["died"] is not None:
+                    problems.append({"kind": "impl-crash", "key": vs["died"], "fam": fam, "detail": f"variant {var} died"})
+                for j, req in enumerate(s["reqs"]):
+                    vi_ans = vs["impl"][j] if j < len(vs["impl"]) else "(missing)"
+                    base_ans = s["impl"][j]
+                    if vi_ans.startswith("all@nonce=") and base_ans.startswith("all@nonce="):
+                        # whole-proof digests are comparable only when the same proof-of-work nonce
+                        # was found (a parallel search may return any valid nonce)
+                        if vi_ans.split(":")[0] != base_ans.split(":")[0]:
+                            nonce_differs += 1
+                            continue
+                    if vi_ans != base_ans:
+                        problems.append({"kind": "impl-vs-oracle", "key": req, "fam": fam, "impl": vi_ans, "expected": s["impl"][j], "model": "",
+                                         "detail": f"answer under variant {var} differs from the default serial build"})
             for k, v in s["stats"].get("hist", {}).items():
                 hist[fam + ":" + k] = v
             if s["died"] is not None:
                 problems.append({"kind": "impl-crash", "key": s["died"], "fam": fam,
                                  "detail": "the harness process died (abort/stack overflow/timeout) while the implementation executed this request"})
+            if s["model"] is None:
+                oracle_only_cases += len(s["reqs"])
+                for j, req in enumerate(s["reqs"]):
+                    total_cases += 1
+                    distinct.add(req)
+                    im, orc = s["impl"][j], s["oracle"][j]
+                    if not oracle_ok(im, orc):
+                        problems.append({"kind": "impl-vs-oracle", "key": req, "fam": fam, "impl": im, "expected": orc, "model": "",
+                                         "detail": "implementation answer differs from the property's oracle"})
+                    if len(samples) < 6 and j % max(1, len(s["reqs"]) // 3) == 1:
+                        samples.append({"request": req[:300], "impl": im[:200], "oracle": orc[:200]})
+                continue
             if len(s["model"]) != len(s["reqs"]):
                 problems.append({"kind": "driver", "key": "driver:" + fam, "fam": fam,
                                  "detail": f"model driver answered {len(s['model'])} of {len(s['reqs'])} requests; rc={s['driver_rc']} {s['driver_err']}"})
@@ -298,7 +339,7 @@ def main():
                 else:
                     agree += 1
                 if len(samples) < 6 and j % max(1, len(s["reqs"]) // 3) == 1:
-                    samples.append({"request": req, "impl": im[:200], "model": mo[:200], "oracle": orc[:200]})
+                    samples.append({"request": req[:300], "impl": im[:200], "model": mo[:200], "oracle": orc[:200]})
 
     # --- 4. decide ------------------------------------------------------------------------------
     findings = [f for f in load_findings() if f["property"] == pid]
@@ -308,7 +349,11 @@ def main():
         hit = None
         for f in findings:
             pk = p["key"].replace(" ", "_")   # keys in known_findings.txt contain no spaces
-            if f["key"] == pk or (f["key"].endswith("*") and pk.startswith(f["key"][:-1])):
+            if f["key"].startswith("impl~"):
+                # site-keyed finding: the implementation's answer names the failing site
+                if f["key"][5:] in (p.get("impl") or "").replace(" ", "_"):
+                    hit = f
+            elif f["key"] == pk or (f["key"].endswith("*") and pk.startswith(f["key"][:-1])):
                 hit = f
         if hit:
             known_hit.append((hit, p))
@@ -377,6 +422,9 @@ def main():
             "traces_validated_against_impl": agree,
             "input_distribution": hist,
             "translator_steps": [" ".join(s) + (" ok" if r == 0 else " FAILED") for s, r, _ in gen_results],
+            "oracle_only_cases": oracle_only_cases,
+            "variant_cases": variant_cases,
+            "variant_cases_with_different_nonce": nonce_differs,
             "model_vs_impl_disagreements": len([p for p in problems if p["kind"] == "model-vs-impl"]),
             "impl_vs_oracle_failures": len([p for p in problems if p["kind"] == "impl-vs-oracle"]),
             "known_findings_hit": [f["key"] for f, _ in known_hit],
